@@ -295,7 +295,7 @@ func c10WhoWrites(c *Ctx, prog *load.Program, rule, pkgPath string, allowed map[
 
 func c10Accessors(c *Ctx, prog *load.Program) {
 	P := symPt("**k.point")
-	enc := symBytes("*k.pointBytes")
+	enc := absint.SymBytes("*k.pointBytes", 65, 0)
 	type acc struct {
 		name  string
 		typ   string
@@ -370,7 +370,6 @@ func c10Accessors(c *Ctx, prog *load.Program) {
 		r := RunFn(prog, protoSet(nil), name, &RunOpts{Args: named("k"), Config: func(cfg *absint.Config) { cfg.RecordStores = true }, Pre: func(ex *absint.Exec, st *absint.State, args []absint.Val) {
 			if a.typ == "PublicKey" {
 				// an initialised key: the cached encoding is a 65-byte string
-				sym.SetBytesLen(enc, 65)
 				kp := args[0].(*absint.Ptr)
 				ib := FieldIndex(prog, models.SececPkg, "PublicKey", "pointBytes")
 				arr := ex.BytesToSlice(st, enc, "pointBytes")
